@@ -48,7 +48,7 @@ type c20Inv struct {
 }
 
 type c20Obs struct {
-	GivenUp int `json:"givenUp,omitempty"`
+	GivenUp    int      `json:"givenUp,omitempty"`
 	Log        []c20Inv `json:"log"`
 	ListenErr  string   `json:"listenErr,omitempty"`
 	Returned   bool     `json:"returned"`
